@@ -128,7 +128,19 @@ type KnownEntry struct {
 
 // LoadKnown reads /verif/known_findings.txt (never written at run time).
 func LoadKnown() ([]KnownEntry, error) {
-	f, err := os.Open(filepath.Join(VerifDir(), "known_findings.txt"))
+	// the file lives next to the checker: $VERIF_DIR (when it has one), /verif, or the directory above the binary
+	var f *os.File
+	var err error
+	cands := []string{filepath.Join(VerifDir(), "known_findings.txt"), "/verif/known_findings.txt"}
+	if exe, e := os.Executable(); e == nil {
+		cands = append(cands, filepath.Join(filepath.Dir(filepath.Dir(exe)), "known_findings.txt"))
+	}
+	for _, c := range cands {
+		f, err = os.Open(c)
+		if err == nil {
+			break
+		}
+	}
 	if err != nil {
 		if os.IsNotExist(err) {
 			return nil, nil
@@ -186,7 +198,7 @@ func (r *Result) Finish() int {
 	for _, f := range r.Findings {
 		isKnown := false
 		for _, k := range known {
-			if k.Kind == "finding" && k.Prop == r.Prop && k.Rule == f.Rule && k.Site == f.Key {
+			if k.Kind == "finding" && k.Prop == r.Prop && k.Rule == f.Rule && k.Site == StripVariant(f.Key) {
 				isKnown = true
 				fmt.Printf("KNOWN-FINDING: property=%s rule=%s site=%s %s\n", r.Prop, f.Rule, f.Key, k.Text)
 				break
@@ -297,4 +309,26 @@ func seedFromEnv() int {
 	var n int
 	fmt.Sscanf(os.Getenv("VERIF_SEED"), "%d", &n)
 	return n
+}
+
+
+// StripVariant removes the "[GOARCH=386] " style prefix that findings of a build variant carry.
+func StripVariant(key string) string {
+	if strings.HasPrefix(key, "[") {
+		if i := strings.Index(key, "] "); i > 0 {
+			return key[i+2:]
+		}
+	}
+	return key
+}
+
+// IsKnown reports whether the finding is listed as a known finding of the property.
+func IsKnown(prop string, f Finding) bool {
+	known, _ := LoadKnown()
+	for _, k := range known {
+		if k.Kind == "finding" && k.Prop == prop && k.Rule == f.Rule && k.Site == StripVariant(f.Key) {
+			return true
+		}
+	}
+	return false
 }
